@@ -697,3 +697,36 @@ func ruleLocksetConsistent(w *World, r *Report, rule string, inScope func(pkgPat
 		}
 	}
 }
+
+// heldWithCallers: instruction `in` executes with the mutex (recognised by isMutexVal on the Lock receiver)
+// held — inside a lock region of its own function, or its function is called only from such regions
+// (static calls, never via go), transitively to the given depth.
+func heldWithCallers(w *World, in ssa.Instruction, isMutexVal func(ssa.Value) bool, depth int) bool {
+	f := in.Parent()
+	region, _ := lockRegion(f, isMutexVal)
+	if region[in] {
+		return true
+	}
+	if depth > 3 {
+		return false
+	}
+	obj, _ := f.Object().(*types.Func)
+	if obj == nil {
+		return false
+	}
+	n := 0
+	for caller := range allModuleFuncs(w, w.SSA()) {
+		for _, c := range callsIn(caller) {
+			if sCallee(c) == obj && !c.Common().IsInvoke() {
+				n++
+				if _, isGo := c.(*ssa.Go); isGo {
+					return false
+				}
+				if !heldWithCallers(w, c, isMutexVal, depth+1) {
+					return false
+				}
+			}
+		}
+	}
+	return n > 0
+}
